@@ -250,7 +250,7 @@ func runC12(p *Prog, r *Report) {
 					if f == g {
 						continue
 					}
-					if g.Parent() == f || (goroutineOf(g, targets) != nil && goroutineOf(g, targets).Parent() == f) {
+					if g.Parent() == f || (goroutineOf(g, targets) != nil && goroutineOf(g, targets).Parent() == f) || (g.Parent() == nil && targets[g] && startsWithGo(f, g)) {
 						for _, c := range byOwner[f] {
 							spawned := false
 							for _, e := range c.seg.Events {
@@ -262,7 +262,7 @@ func runC12(p *Prog, r *Report) {
 								okA, detailA = false, "parent closes the channel on a path that also starts the closing goroutine"
 							}
 						}
-					} else if f.Parent() != g && !(goroutineOf(f, targets) != nil && goroutineOf(f, targets).Parent() == g) {
+					} else if f.Parent() != g && !(goroutineOf(f, targets) != nil && goroutineOf(f, targets).Parent() == g) && !(f.Parent() == nil && targets[f] && startsWithGo(g, f)) {
 						okA, detailA = false, fmt.Sprintf("closed in unrelated functions %s and %s", FuncName(f), FuncName(g))
 					}
 				}
@@ -907,4 +907,16 @@ func ownEvents(fn *ssa.Function, evs []*Event) []*Event {
 		}
 	}
 	return out
+}
+
+// startsWithGo: f contains `go g(...)`.
+func startsWithGo(f, g *ssa.Function) bool {
+	for _, b := range f.Blocks {
+		for _, in := range b.Instrs {
+			if gi, ok := in.(*ssa.Go); ok && StaticCallee(&gi.Call) == g {
+				return true
+			}
+		}
+	}
+	return false
 }
